@@ -227,7 +227,9 @@ func c02Gen(g *core.Gen) {
 	for _, cfg := range []scen.P1Config{{Sizes: []int{7, 3, 5}, Volumes: 2}, {Sizes: []int{4, 9}, Volumes: 3}, {Sizes: []int{6, 0, 2, 8}, Volumes: 2},
 		// names with code points on the limits of the encodings involved (U+007F / U+0080 / U+0081, U+07FF, ...): a name
 		// decoded differently from how it was encoded is a write to another path
-		{Sizes: []int{7, 3, 5}, Names: c10NameSets[5][:3], Volumes: 2}, {Sizes: []int{3, 4}, Names: c10NameSets[5][3:5], Volumes: 2}, {Sizes: []int{3, 4}, Names: []string{"\uffff", "\U00010000"}, Volumes: 1}} {
+		{Sizes: []int{7, 3, 5}, Names: c10NameSets[5][:3], Volumes: 2}, {Sizes: []int{3, 4}, Names: c10NameSets[5][3:5], Volumes: 2}, {Sizes: []int{3, 4}, Names: []string{"\uffff", "\U00010000"}, Volumes: 1},
+		// names that differ only by a blank at the end / start, and names with dots in a row
+		{Sizes: []int{5, 4, 6}, Names: []string{"report ", "report", " report"}, Volumes: 2}, {Sizes: []int{5, 4}, Names: []string{"notes..txt", "notes.txt"}, Volumes: 1}} {
 		nf := len(cfg.Sizes)
 		dm := make([]int, nf)
 		var recD func(i int)
